@@ -117,6 +117,15 @@ def section(kind, n, body="ctx", src="git"):
         hh2 = b"@@ -123456,%d +123456,%d @@ fn deep()" % (sum(1 for l in bl if l[:1] in b" -"),
                                                          sum(1 for l in bl if l[:1] in b" +"))
         lines = [d, b"index 1111111..2222222 100644", b"--- a/" + f, b"+++ b/" + f, hh2] + bl
+    elif kind in ("conflict2_unnamed", "conflict2_open"):
+        # the same with markers that name nothing (`++>>>>>>>`), and a region that is never closed (the section
+        # ends inside it): what an earlier region named must not be shown for these
+        bl = [b"  a", b"++<<<<<<< HEAD", b" +ours", b"++=======", b"+ theirs"]
+        if kind == "conflict2_unnamed":
+            bl += [b"++>>>>>>>", b"  z"]
+        lines = [b"diff --cc " + f, b"index 1111111,2222222..0000000", b"--- a/" + f, b"+++ b/" + f,
+                 b"@@@ -1,3 -1,3 +1,7 @@@"] + bl
+        info.update(event="combined", hunk_lines=bl)
     elif kind in ("conflict3", "conflict2"):
         # combined diff of an unresolved merge: a conflict region in diff3 style (with the common ancestor) or
         # in the default two-way style
